@@ -11,3 +11,31 @@ package rewrite
 //@ use casketfile/contracts_verif.go:dispenser_api
 //@ use @verif/specs/stdlib.spec:stdlib
 //@ use @verif/specs/stdlib.spec:casket_api
+
+//@ unit rewrite_rules props=C19 nilchecks=on filter=`rewrite\.ComplexRule\)\.(Match|matchExt)$|rewrite\.regexpMatches$|rewrite\.NewComplexRule$`
+//@ // The matchers of a `rewrite` block are total in the request path: whatever path Path.Matches accepted for the rule's
+//@ // base (it compares cleaned, case-folded paths, so an accepted path can be SHORTER than the base as written), cutting
+//@ // the base off before the regexp is applied stays in range; extension entries are non-empty by construction.
+//@ use @verif/specs/stdlib.spec:stdlib
+//@ extern regexp.Compile
+//@ extern (*regexp.Regexp).FindStringSubmatch
+//@ extern (*strings.Replacer).Replace
+//@ extern path/filepath.Base
+//@   pure
+//@ extern path.Ext
+//@   pure
+//@ extern fmt.Errorf
+//@   ensures result != nil
+//@ extern github.com/tmpim/casket/caskethttp/httpserver.MergeRequestMatchers
+//@   ensures result != nil
+//@ extern invoke:(github.com/tmpim/casket/caskethttp/httpserver.RequestMatcher).Match
+//@ invariant escaper != nil
+//@ func NewComplexRule
+//@   ensures [extensions_non_empty] result1 == nil ==> forall(k, 0, len(result0.Exts), len(result0.Exts[k]) >= 1)
+//@   ensures [matcher_present] result1 == nil ==> result0.RequestMatcher != nil
+//@   loop 1 invariant 0 <= #i && #i <= len(ext) && forall(k, 0, #i, len(ext[k]) >= 1)
+//@ func (ComplexRule).matchExt
+//@   requires forall(k, 0, len(r.Exts), len(r.Exts[k]) >= 1)
+//@ func regexpMatches
+//@ func (ComplexRule).Match
+//@   requires req != nil && req.URL != nil && r.RequestMatcher != nil && forall(k, 0, len(r.Exts), len(r.Exts[k]) >= 1)
